@@ -106,6 +106,23 @@ def run(tier):
         spell.append((name + " b", name + "pb", None))
     if tier == "quick":
         spell = r.sample(spell, 120)
+    # ... and inside whole glycans: the reducing-end anomer as suffix or after a blank, the own series and 'p' on inner
+    # residues; in particular glycans in which the reducing-end sugar occurs again, bound with the other anomer
+    whole = []
+    for nm in (["Glc", "Man", "Gal", "GlcNAc", "Fuc", "Xyl", "Neu5Ac", "Galf", "Rha", "Kdo"] if tier == "quick" else sorted(n for n in T.RES if T.RES[n][3] != "lib")):
+        c1, oh = T.RES[nm][0], T.RES[nm][1]
+        for an, opp in (("a", "b"), ("b", "a")):
+            g = f"{nm}({opp}{c1}-{oh[-1]}){nm}"
+            whole.append((g + " " + an, g + an, None))
+            g3 = f"{nm}({opp}{c1}-{oh[0]})[Gal(b1-{oh[-1]})]{nm}"
+            whole.append((g3 + " " + an, g3 + an, None))
+    for _ in range(10 if tier == "quick" else 150):
+        t = T.random_tree(r, r.randint(2, 6), p_branch=0.4)
+        g = T.render(t)
+        an = r.choice("ab")
+        whole.append((g + " " + an, g + an, None))
+        whole.append((g, T.render(t).replace("Glc(", "Glcp(").replace("Man(", "D-Manp(").replace("Fuc(", "L-Fuc("), None))
+    spell += whole
     flat = sorted(set(x for s in spell for x in s[:2]))
     out = dict(zip(flat, chem.convert_all(flat)))
     for a, b, _ in spell:
@@ -119,7 +136,7 @@ def run(tier):
         report.fail({"site": "proof", "kind": "obligation-broken"},
                     {"no_failing_input": True, "what_no_longer_checks": broken, "theorems": names_thm})
     report.assumptions = ["molecule identity is Iso.same_molecule (extracted Coq)"]
-    extra = {"rule": "every connection form (anomer a/b/? x child position written or not x parent positions) on aldose and 2-ketose children, compared as edge labels (against the model and the specification) and as molecules; random trees in full / parenthesis-free / short notation; spelled-out defaults for every library code",
+    extra = {"rule": "every connection form (anomer a/b/? x child position written or not x parent positions) on aldose and 2-ketose children, compared as edge labels (against the model and the specification) and as molecules; random trees in full / parenthesis-free / short notation; spelled-out defaults for every library code and inside whole glycans (reducing-end anomer as suffix / after a blank with the same sugar bound by the other anomer elsewhere; 'p' and own series on inner residues)",
              "edge_labels_compared": n_edges, "print_assumptions": res.assumptions.get(f"Props/{PROP}.v", "").strip().splitlines()[-4:]}
     return report.finish("proof", ob, dis, names_thm, trusted=C.TRUSTED, extra=extra)
 
